@@ -284,6 +284,11 @@ def assemble(
 
     except FlipJumpException as fj_exception:
         raise fj_exception
+    except RecursionError as recursion_error:
+        raise FlipJumpAssemblerException(
+            f"An expression (or macro nesting) is too deep to be processed with max_recursion_depth={max_recursion_depth}. "
+            f"Split the expression, or raise the max recursion depth."
+        ) from recursion_error
     except Exception as unknown_exception:
         raise FlipJumpAssemblerException(
             "Unknown exception during assembling the .fj files, please report this bug"
